@@ -125,13 +125,19 @@ def outputs_on_grid(engine, n_in: int):
     return res
 
 
-def run_recipe(acc: Acc, group: str, label: str, recipe: dict, d: int) -> None:
-    case = {"label": label, "group": group, "decimals": d, "recipe": recipe}
+SEPARATORS = ["\n", "; ", " | ", "\n\n"]
+
+
+def run_recipe(acc: Acc, group: str, label: str, recipe: dict, d: int, separator: str = "\n") -> None:
+    case = {"label": label, "group": group, "decimals": d, "recipe": recipe, "separator": separator}
     reset_settings()
     fl.settings.decimals = d
     try:
         E = R.build(recipe)
-        ex, im = fl.FllExporter(), fl.FllImporter()
+        if separator == "\n":
+            ex, im = fl.FllExporter(), fl.FllImporter()
+        else:  # an exporter / importer pair configured with another statement separator
+            ex, im = fl.FllExporter(separator=separator), fl.FllImporter(separator=separator)
         T1 = ex.to_string(E)
         acc.transitions += 1
         if ex.to_string(E) != T1:
@@ -304,6 +310,11 @@ def run_shard(tier: str, seed: int, shard: int):
             pair = "+" in group
             for d in (ds if not pair else [3, 1]):
                 acc.guard({"label": label, "group": group, "decimals": d, "recipe": recipe}, run_recipe, acc, group, f"{base['name']}:{label}", recipe, d)
+            if group == "base":
+                for sep in SEPARATORS[1:]:
+                    acc.guard({"label": label, "group": group, "decimals": 3, "recipe": recipe, "separator": sep}, run_recipe, acc, "separator",
+                              f"{base['name']}:separator={sep!r}", recipe, 3, sep)
+                    acc.cls("separator_pairs")
         if shard == bi:
             for d in (3, 9):
                 acc.guard({"label": "variants", "group": "variant", "decimals": d, "recipe": base}, run_variants, acc, base, d)
@@ -324,7 +335,7 @@ def summarize(tier: str, seed: int, merged: dict) -> dict:
         "rule": (
             f"5 base engines + every single-field deviation ({n_single} engines"
             + (", plus every pair of deviations from different groups on the Mamdani and Takagi-Sugeno bases" if tier == "thorough" else "")
-            + f") x decimals {decimals_for(tier)} (at decimals 3 and 9 also built from numpy.float32 arguments); text variants (comments, blank lines, key order, omitted keys, int-looking and "
+            + f") x decimals {decimals_for(tier)} (the base engines also through exporter / importer pairs with the statement separators {SEPARATORS[1:]}; at decimals 3 and 9 also built from numpy.float32 arguments); text variants (comments, blank lines, key order, omitted keys, int-looking and "
             f"over-precise numbers, an extra variable / term named each of {ODD_NAMES}) of the 5 base documents at decimals 3 and 9. states = engines, transitions = exports/imports/"
             "process calls, traces = structural comparisons; every case is non-trivial"
         ),
@@ -343,5 +354,5 @@ def replay(case: dict):
     if case.get("group") == "variant":
         acc.guard(case, run_variants, acc, recipe, case["decimals"])
         return [v for v in acc.violations if v["case"]["label"] == case["label"]] if case["label"] != "variants" else acc.violations
-    acc.guard(case, run_recipe, acc, case["group"], case["label"], recipe, case["decimals"])
+    acc.guard(case, run_recipe, acc, case["group"], case["label"], recipe, case["decimals"], case.get("separator", "\n"))
     return acc.violations
